@@ -310,7 +310,7 @@ RULE = ("each request (plain QUERY, RD random, with or without an OPT advertisin
 CHECK = {
     "property": "C04",
     "props": "Props/C04.v",
-    "theorems": ["c04_response_within_limit", "c04_tc_shape", "c04_limit_value", "c04_udp_response_size", "c04_udp_identical_when_fits_partial", "c04_writer_limit_monotone", "c04_oracle_tc_shape",
+    "theorems": ["c04_tc_on_the_octets", "c04_clause_iv", "c04_clause_iv_two_runs", "c04_endings_on_the_octets", "c04_only_optional_omitted_partial", "c04_glue_complete_partial", "c04_optional_only_partial", "c04_response_within_limit", "c04_tc_shape", "c04_limit_value", "c04_udp_response_size", "c04_udp_identical_when_fits_partial", "c04_writer_limit_monotone", "c04_oracle_tc_shape",
                  "c04_oracle_sizes_and_identity"],
     "allowed_axioms": [],
     "suites": [{
@@ -342,11 +342,28 @@ MANIFEST = {
                    "prepares a clean QUERY), for every zone, question, buffer and size: the finished response is no longer than the "
                    "limit in effect, and the two sides compose for UDP; the limit never changes while answering; TC is set only in the "
                    "Truncation arm, only over UDP, after clear_rrs (no answer/authority records, only the reserved OPT/TSIG counted), "
-                   "never over TCP; and — clause (iii) for answers that end Ok — if the finished TCP message fits the UDP space the UDP "
+                   "never over TCP — and (third wave, c04_tc_on_the_octets, composed with C12's message-level round trip and the key lemma "
+                   "that query.rs obeys the Writer's hint contract) the same on the FINISHED OCTETS for every zone built by adds: an "
+                   "independent RFC 1035 decoder reads TC set only over UDP, and then empty answer and authority sections and nothing "
+                   "but the OPT in the additional section; the glue half of clause (iv) in unary form (c04_glue_complete_partial): a direct "
+                   "referral whose answering logic succeeded carries on the finished octets the NS RRset and, first in the additional "
+                   "section, EVERY address record the zone holds for the name servers at/below the delegated zone, followed by an "
+                   "order-preserving sub-selection of the other name servers' addresses and then only the OPT, whatever the "
+                   "transport and limit; likewise for direct positive answers (c04_optional_only_partial: answer RRset, empty "
+                   "authority, a sub-selection of the additional-section candidates) — so any two successful responses to the "
+                   "same question differ only in which optional candidates are present (clause (iv) per response against "
+                   "canonical lists, for direct referrals and direct answers); and in general (c04_only_optional_omitted_partial, EVERY "
+                   "question incl. CNAME chains, ANY and negative answers): whenever the answering logic succeeds on the octet-level "
+                   "Writer, the decoded answer and authority sections are those of the idealised never-truncating run of the same "
+                   "logic — C05's object, equal to the RFC resolution algorithm `resolve` — and the decoded additional section is the "
+                   "idealised one minus some records of its optional tail (then only the OPT), and no record of that tail is in-bailiwick "
+                   "(owner at/below the owner of an authority record), so referral glue is never omitted: this also closes C05's gap between "
+                   "the octet-level answer and `resolve`; c04_endings_on_the_octets + c04_clause_iv turn the premise into the decoded "
+                   "bits: a response with TC clear and RCODE other than SERVFAIL is exactly one whose answering logic succeeded, "
+                   "hence it differs from the complete answer only by omitted additional records; c04_clause_iv_two_runs states it as the comparison of two runs: the same question over UDP and over TCP (any buffers, ids, EDNS states, limits), TCP never has TC, and if the UDP response is TC-clear and neither is SERVFAIL both differ from ONE complete answer only by omitted not-in-bailiwick additional records (equal answer and authority sections, all glue in both); and — clause (iii) for answers that end Ok — if the finished TCP message fits the UDP space the UDP "
                    "response is octet-identical (Writer limit-monotonicity + a relational lifting over the query model). PARTIAL: "
-                   "clause (iii) for answers ending in SERVFAIL after partial writes (false there: known finding C04-1) and clause (iv) "
-                   "('a TC-clear UDP response differs only by omitted optional additional records, never in-bailiwick glue') are not "
-                   "theorems; they, and all clauses on the real octets, are decided on every run by the extracted relation pair_check "
+                   "clause (iii) for answers ending in SERVFAIL after partial writes (false there: known finding C04-1) "
+                   "is not a theorem; it, and all clauses on the real octets, are decided on every run by the extracted relation pair_check "
                    "on the real server's two responses to ~2.4k requests tuned to within +-40 octets of 512 and of random negotiated "
                    "sizes; both responses are also compared octet for octet with the model."),
     "level_note": ("Trusted: Coq kernel, extraction, fidelity of the hand-written models (octet-exact differential test on every run), "
